@@ -404,8 +404,13 @@ def finish(prop, tier, seed, monitor, lost, t0, spec):
         "wall_s": round(time.time() - t0, 2),
         "violations": int(total_viol - sum(known_met.values())) if nnew else 0,
     }
-    os.makedirs(os.path.join(VERIF, "evidence"), exist_ok=True)
-    with open(os.path.join(VERIF, "evidence", f"{prop}.json"), "w") as f:
+    # evidence committed under /verif/evidence must come from runs against /repo itself: runs against a
+    # patched scratch copy (mutation / equivalence experiments) write theirs to the scratch area
+    evdir = os.path.join(VERIF, "evidence")
+    if os.environ.get("FORMULAE_REPO") and os.path.realpath(os.environ["FORMULAE_REPO"]) != os.path.realpath("/repo"):
+        evdir = os.path.join(WORK, "evidence-scratch")
+    os.makedirs(evdir, exist_ok=True)
+    with open(os.path.join(evdir, f"{prop}.json"), "w") as f:
         json.dump(evidence, f, indent=1, sort_keys=True)
         f.write("\n")
     for l in lines:
